@@ -353,6 +353,16 @@ def bounded_documents(ctx, b):
             for filler in rng.sample(['<p xml:id="spacer"></p>', '<p> </p>', '<p begin="1s"></p>', '<p begin="2s" end="3s">\n  </p>'], 2):
                 ps.insert(rng.randrange(0, len(ps) + 1), filler)
         doc = tmpl % "".join(ps)
+        if rep % 5 == 2 and len(ps) == 3 and all(x.endswith("</p>") for x in ps):
+            # the body divided into several divs of the one language (scenes / chapters), a div of another language
+            # between them, or the last division nested in the first: every cue once (document order for sibling divs)
+            how = ["siblings", "other_language_between", "nested"][(rep // 5) % 3]
+            if how == "siblings":
+                doc = tmpl % (ps[0] + "</div><div>" + ps[1] + "</div><div>" + ps[2])
+            elif how == "other_language_between":
+                doc = tmpl % (ps[0] + ps[1] + '</div><div xml:lang="fr"><p begin="1s" end="2s">fr</p></div><div>' + ps[2])
+            else:
+                doc = tmpl % (ps[0] + ps[1] + "<div>" + ps[2] + "</div>")
         if rep % 4 == 3:
             # a second language without any non-empty cue (before or after the first): the cues of the populated
             # language are returned all the same
